@@ -97,6 +97,10 @@ FRAGMENTS = [
     lambda r: "{|\n|\n" + small_table(r, cols=r.choice((3, 17))) + "\n|}",
     lambda r: "<ref name=\"n%d\">%s</ref> <ref name=\"n%d\"/> <ref name=\"n%d\" />" % ((r.randint(1, 3), words(r, 3)) + (r.randint(1, 3), r.randint(1, 3))),
     lambda r: "<ref>[[A]] [[A]] [http://e.org x] [http://e.org x]</ref>",
+    # the repeated link one level down (italics, a citation span, a second line)
+    lambda r: "<ref>[http://e.org/%s a] %s</ref>" % ((lambda k: (k, r.choice((
+        "''[http://e.org/%s b]''", "<span class=\"citation\">[http://e.org/%s c]</span>", "x\n\n[http://e.org/%s d]",
+        "<b>[http://e.org/%s e]</b>", "<small>http://e.org/%s</small>")) % k))(r.randint(1, 3))),
     lambda r: "<div class=\"noprint\"><ref name=\"n1\">hidden def</ref></div> later <ref name=\"n1\"/>",
     lambda r: "<references/>",
     lambda r: "<sup>%s</sup>" % words(r, r.choice((1, 30))),
